@@ -85,8 +85,7 @@ impl<T: Debug> OrderedWorkStealQueue<T> {
             .value()
             .push(item);
         //add count
-        self.len
-            .store(self.len().saturating_add(1), Ordering::Release);
+        _ = self.len.fetch_add(1, Ordering::AcqRel);
     }
 
     /// Pop an element from the global queue.
@@ -100,8 +99,11 @@ impl<T: Debug> OrderedWorkStealQueue<T> {
                 match entry.value().steal() {
                     Steal::Success(item) => {
                         // Decrement the count.
-                        self.len
-                            .store(self.len().saturating_sub(1), Ordering::Release);
+                        _ = self
+                            .len
+                            .fetch_update(Ordering::AcqRel, Ordering::Acquire, |v| {
+                                Some(v.saturating_sub(1))
+                            });
                         return Some(item);
                     }
                     Steal::Retry => {}
@@ -297,8 +299,7 @@ impl<'l, T: Debug> OrderedLocalQueue<'l, T> {
             self.push_to_global(priority, item);
         } else {
             //add count
-            self.len
-                .store(self.local_len().saturating_add(1), Ordering::Release);
+            _ = self.len.fetch_add(1, Ordering::AcqRel);
         }
     }
 
@@ -318,8 +319,11 @@ impl<'l, T: Debug> OrderedLocalQueue<'l, T> {
             }
         }
         // refresh count
-        self.len
-            .store(self.local_len().saturating_sub(count), Ordering::Release);
+        _ = self
+            .len
+            .fetch_update(Ordering::AcqRel, Ordering::Acquire, |v| {
+                Some(v.saturating_sub(count))
+            });
         //直接放到全局队列
         self.shared.push_with_priority(priority, item);
     }
@@ -429,11 +433,9 @@ impl<'l, T: Debug> OrderedLocalQueue<'l, T> {
                             .is_ok()
                         {
                             // refresh local len
-                            self.len.store(
-                                self.local_len().saturating_add(
-                                    into_queue.capacity() - into_queue.spare_capacity(),
-                                ),
-                                Ordering::Release,
+                            _ = self.len.fetch_add(
+                                into_queue.capacity() - into_queue.spare_capacity(),
+                                Ordering::AcqRel,
                             );
                             self.release_lock();
                             return self.pop_local();
@@ -452,8 +454,11 @@ impl<'l, T: Debug> OrderedLocalQueue<'l, T> {
         for entry in self.queue {
             if let Some(val) = entry.value().pop() {
                 // Decrement the count.
-                self.len
-                    .store(self.local_len().saturating_sub(1), Ordering::Release);
+                _ = self
+                    .len
+                    .fetch_update(Ordering::AcqRel, Ordering::Acquire, |v| {
+                        Some(v.saturating_sub(1))
+                    });
                 return Some(val);
             }
         }
